@@ -64,6 +64,7 @@
      rn_run, count_ticks, benign   see C17_transfer_expires_trace *)
 From RV Require Import Base.Prelude Base.IdSet M.Util M.Proto M.Progress M.RaftLog M.ConfChange
   M.Msg M.Raft M.RawNode M.RaftProofs M.RaftProofsC17.
+From RV Require P.Election P.ElectionProofs P.Log P.LogProofs P.LogSafety.
 From RecordUpdate Require Import RecordSet.
 Import RecordSetNotations.
 Local Open Scope N_scope.
@@ -488,3 +489,31 @@ Example C17_ex_not_promotable :
   step ((ex_follower 4) <| r_promotable := false |>) ex_timeout_now
   = Ok ((ex_follower 4) <| r_promotable := false |>, E_OK).
 Proof. vm_compute. reflexivity. Qed.
+
+(* ------------------------------------------------------------------ *)
+(* Cluster level, safety half of "when a transfer completes the target leads a higher
+   term holding every committed entry": whatever made a node the leader of a term - a
+   transfer's forced campaign included (P over-approximates campaigns by free choice) -
+   it holds every commit point of every earlier (or its own) term with identical
+   entries, and it is the only leader of its term.  Statements about the abstract
+   protocol P/Log.v (proofs in P/LogSafety.v, P/ElectionProofs.v); fixed voter
+   configuration, no single-node quorum.  That the old leader then follows the target is
+   per-step content of the node model (a higher-term message makes it a follower). *)
+Theorem C17_new_leader_holds_committed :
+  forall inc out, inc <> [] -> RV.P.ElectionProofs.no_single_quorum inc out ->
+  forall s T k c, RV.P.Log.lreachable inc out s -> In (T, k) (RV.P.Log.cpts s) ->
+    RV.P.Election.p_role (RV.P.Election.nodes (RV.P.Log.el s) c) = RV.P.Election.PL ->
+    T <= RV.P.Election.p_term (RV.P.Election.nodes (RV.P.Log.el s) c) ->
+    (k <= length (RV.P.Log.l_log (RV.P.Log.ln s c)))%nat /\
+    firstn k (RV.P.Log.l_log (RV.P.Log.ln s c)) = firstn k (RV.P.Log.llog s T).
+Proof. exact RV.P.LogSafety.leader_completeness_roles. Qed.
+Print Assumptions C17_new_leader_holds_committed.
+
+Theorem C17_one_leader_per_term :
+  forall inc out, inc <> [] -> forall s a b,
+    RV.P.ElectionProofs.no_single_quorum inc out -> RV.P.Election.reachable inc out s ->
+    RV.P.Election.p_role (RV.P.Election.nodes s a) = RV.P.Election.PL ->
+    RV.P.Election.p_role (RV.P.Election.nodes s b) = RV.P.Election.PL ->
+    RV.P.Election.p_term (RV.P.Election.nodes s a) = RV.P.Election.p_term (RV.P.Election.nodes s b) -> a = b.
+Proof. exact RV.P.ElectionProofs.election_safety_roles. Qed.
+Print Assumptions C17_one_leader_per_term.
